@@ -439,6 +439,41 @@ pub fn sites(tier: Tier) -> Vec<Site> {
     sites
 }
 
+/// The layout of a frame does not depend on what the encoder was asked before: every kind's B1 packet (both
+/// modes) encoded right after a packet that was refused part-way, compared byte for byte with the frame the
+/// specification table gives (C02's oracle).
+pub fn after_refusal_spec_site(prop: &'static str) -> Site {
+    let refused = Arc::new(super::e2props::refused_packets());
+    let mut followers: Vec<(String, bool, Packet, Vec<u8>)> = vec![];
+    for k in spec::load().iter() {
+        for c in [true, false] {
+            let vals = crate::gen::baseline(k, 1);
+            let Some(f) = spec::ref_encode(k, &vals, c) else { continue };
+            let codec = Codec::new(mode_of(c));
+            let mut b = BytesMut::from(&f[..]);
+            let Ok(Some(p)) = codec.decode(&mut b) else { continue };
+            // (kinds whose B1 frame the encoder does not reproduce are judged by the value sites)
+            let Ok(Ok(own)) = guard(|| codec.encode(&p)) else { continue };
+            if own[..] != f[..] { continue; }
+            followers.push((k.name.clone(), c, p, f));
+        }
+    }
+    let n = (refused.len() * followers.len()) as u64;
+    Site::new("layout-after-refusal", n,
+        "3 packets whose encoding is refused part-way x every kind's B1 packet (both modes) encoded right afterwards on the same thread: the frame is the specification's, byte for byte",
+        move |i, acc| {
+            acc.eval();
+            let (rname, r) = &refused[(i as usize) / followers.len()];
+            let (kname, c, p, want) = &followers[(i as usize) % followers.len()];
+            let codec = Codec::new(mode_of(*c));
+            let _ = guard(|| codec.encode(r).map(|b| b.len()));
+            match guard(|| codec.encode(p).map(|b| b.to_vec())) {
+                Ok(Ok(b)) if b == *want => { acc.class("layout-after-refusal-agrees"); acc.nontrivial(); },
+                other => acc.violate(i, format!("{prop}|{kname}|layout-depends-on-the-previous-encode"), format!("{kname} encoded right after {rname} was refused: {} ; the specification gives {}", match other { Ok(Ok(b)) => hex(&b[..b.len().min(32)]), Ok(Err(e)) => e.to_string(), Err(pn) => pn }, hex(&want[..want.len().min(32)])), json!({"site": "layout-after-refusal", "index": i, "refused": rname, "then": kname})),
+            }
+        })
+}
+
 pub fn run(tier: Tier, replay: Option<String>) -> i32 {
     super::run_e1("C03", tier, "exploration", replay, sites(tier),
         "Gen+ = decoded specification frames (all field domains) + element counts 0..=255 of every counted kind + texts of length 0..=2N in every text field + every decoder-accepted 1-byte mutation of every reference frame, x both size modes; non-trivial = the encoder produced a frame (distinct frames hashed / counted)",
